@@ -188,7 +188,11 @@ func checkC03(c *c03Case) error {
 	if c.W != nil {
 		w := xsel.NodeSet{}
 		for _, m := range env.Vars[xref.Name{Local: "w"}].Nodes {
-			w = append(w, p.loc.ToCur[m])
+			cur := p.loc.ToCur[m]
+			if c.View > 0 {
+				cur = viewOf(cur, c.View) // one document, one kind of cursor
+			}
+			w = append(w, cur)
 		}
 		set = append(set, xsel.WithVariable("w", w))
 	}
@@ -321,7 +325,11 @@ func checkC03(c *c03Case) error {
 		err = fmt.Errorf("skipped")
 	}
 	if err == nil {
-		if v, err := safeExec(p.loc.ToCur[ctx], g, set...); err != nil || v.Number() != float64(len(ab.ns)) {
+		start := p.loc.ToCur[ctx]
+		if c.View > 0 {
+			start = viewOf(start, c.View)
+		}
+		if v, err := safeExec(start, g, set...); err != nil || v.Number() != float64(len(ab.ns)) {
 			return fmt.Errorf("%s = %v (err %v) but the union has %d nodes", xast.RenderMinimal(cnt), v, err, len(ab.ns))
 		}
 	}
